@@ -28,40 +28,7 @@ pub mod kzg10 {
 // ======================= specification (Marlin [CHMMVW20] sec. 6.1 / appendix: batching with degree bounds) =======================
 // One challenge per commitment, one more per degree-bounded commitment, all squeezed successively from the sponge.
 //@spec marlin_sched_spec
-// shift table of the verifier key as a partial map  bound -> beta^(max_degree - bound) G
-pub open spec fn shift_of(vk: &VerifierKey, d: usize) -> Option<FS> {
-    match vk.degree_bounds_and_shift_powers {
-        Some(v) => if exists|i: int| 0 <= i < v@.len() && v@[i].0 == d { Some(v@[choose|i: int| 0 <= i < v@.len() && v@[i].0 == d].1@) } else { None },
-        None => None,
-    }
-}
-// C* = sum_i  xi_i * C_i  +  xi'_i * (S_i - v_i * shift(d_i))
-pub open spec fn acc_c(cs: Seq<&LabeledCommitment<Commitment>>, vs: Seq<Fr>, vk: &VerifierKey, s: SS, k: nat) -> FS decreases k {
-    if k == 0 { f_zero() } else {
-        let j = (k - 1) as nat; let base = nsq(cs, j);
-        let c0 = f_add(acc_c(cs, vs, vk, s, j), f_mul(cs[j as int].commitment.comm.0@, sp_chal(s, base)));
-        match cs[j as int].degree_bound {
-            Some(d) => f_add(c0, f_mul(f_sub(cs[j as int].commitment.shifted_comm->Some_0.0@, f_mul(shift_of(vk, d)->Some_0, vs[j as int]@)), sp_chal(s, base + 1))),
-            None => c0,
-        }
-    }
-}
-// v* = sum_i xi_i * v_i
-pub open spec fn acc_v(cs: Seq<&LabeledCommitment<Commitment>>, vs: Seq<Fr>, s: SS, k: nat) -> FS decreases k {
-    if k == 0 { f_zero() } else {
-        let j = (k - 1) as nat;
-        f_add(acc_v(cs, vs, s, j), f_mul(vs[j as int]@, sp_chal(s, nsq(cs, j))))
-    }
-}
-pub open spec fn bounds_supported(cs: Seq<&LabeledCommitment<Commitment>>, vk: &VerifierKey, k: nat) -> bool {
-    forall|j: int| 0 <= j < k ==> ((#[trigger] cs[j]).degree_bound is Some ==> shift_of(vk, cs[j].degree_bound->Some_0) is Some)
-}
-// table sorted strictly by bound: what MarlinKZG10::trim establishes (sort + dedup), needed by the binary search
-pub open spec fn shift_table_sorted(vk: &VerifierKey) -> bool {
-    vk.degree_bounds_and_shift_powers is Some ==> forall|i: int, j: int| 0 <= i < j < vk.degree_bounds_and_shift_powers->Some_0@.len() ==>
-        vk.degree_bounds_and_shift_powers->Some_0@[i].0 < vk.degree_bounds_and_shift_powers->Some_0@[j].0
-}
-
+//@spec marlin_acc_spec
 impl VerifierKey {
 //@fn id=marlin_pc.VerifierKey.get_shift_power file=poly-commit/src/marlin/marlin_pc/data_structures.rs scope="impl<E: Pairing> VerifierKey<E>" name=get_shift_power props=C04,C10
     pub fn get_shift_power(&self, bound: usize) -> (r: Option<G1Affine>)
@@ -93,18 +60,21 @@ impl Marlin {
 //@fn id=marlin.accumulate_commitments_and_values file=poly-commit/src/marlin/mod.rs scope="impl<E, P, PC> Marlin<E, P, PC>" name=accumulate_commitments_and_values props=C10,C04,C11,C02
     fn accumulate_commitments_and_values<'a>(commitments: Vec<&'a LabeledCommitment<Commitment>>, values: Vec<Fr>, sponge: &mut Sponge, vk: Option<&VerifierKey>) -> (res: Result<(G1, Fr), Error>)
     requires
-        vk is Some,
-        shift_table_sorted(vk->Some_0),
+        vk is Some ==> shift_table_sorted(vk->Some_0),
     ensures
+        // without a key (the PST13 caller passes None) no commitment may carry a degree bound: `vk.unwrap()` aborts
+        res is Ok && vk is None ==> forall|j: int| 0 <= j < min(commitments@.len(), values@.len()) ==> (#[trigger] commitments@[j]).degree_bound is None,   // name=marlin.accumulate.no_key_no_degree_bounds props=C04,C17
         res is Ok ==> res->Ok_0.0@ == acc_c(commitments@, values@, vk->Some_0, old(sponge).st@, min(commitments@.len(), values@.len())),   // name=marlin.accumulate.combined_commitment props=C10,C04,C02
         res is Ok ==> res->Ok_0.1@ == acc_v(commitments@, values@, old(sponge).st@, min(commitments@.len(), values@.len())),                // name=marlin.accumulate.combined_value props=C10,C02
         res is Ok ==> final(sponge).st@ == sp_iter(old(sponge).st@, nsq(commitments@, min(commitments@.len(), values@.len()))),            // name=marlin.accumulate.squeeze_schedule props=C11
         res is Ok ==> bounds_supported(commitments@, vk->Some_0, min(commitments@.len(), values@.len())),                                    // name=marlin.accumulate.unsupported_bound_is_err props=C04
         res is Ok ==> forall|j: int| 0 <= j < min(commitments@.len(), values@.len()) ==> (#[trigger] commitments@[j]).degree_bound.is_some() == commitments@[j].commitment.shifted_comm.is_some(),   // name=marlin.accumulate.bound_and_shifted_commitment_agree props=C04
 //@body
+//@rw * /\bvk\s*\.unwrap\(\)/ => vk.unwrap_abort()
 //@loop 1 kw=for name=it
           invariant
-            it.index@ <= min(commitments@.len(), values@.len()), vk is Some, shift_table_sorted(vk->Some_0),
+            it.index@ <= min(commitments@.len(), values@.len()), vk is Some ==> shift_table_sorted(vk->Some_0),
+            vk is None ==> forall|j: int| 0 <= j < it.index@ ==> (#[trigger] commitments@[j]).degree_bound is None,
             sponge.st@ == sp_iter(old(sponge).st@, nsq(commitments@, it.index@ as nat)),
             combined_comm@ == acc_c(commitments@, values@, vk->Some_0, old(sponge).st@, it.index@ as nat),
             combined_value@ == acc_v(commitments@, values@, old(sponge).st@, it.index@ as nat),
